@@ -209,7 +209,7 @@ pub fn replay(ctx: &Arc<Ctx>, v: &Value) {
 pub fn run(ctx: &Arc<Ctx>) {
     refmodels::selftest::run(&["sm3", "sm2"]).unwrap_or_else(|e| ctx.machinery_error(format!("reference self-test failed: {}", e)));
     let n = sm2::params().n.clone();
-    ctx.set_rule("every message length 1..=300 (thorough 1..=1200) x {C1C2C3,C1C3C2} x {compressed,uncompressed} x content {zero, seeded} with fixed (d,k); keys {Annex d, n-2, seeded} x nonce alphabet at lengths {1,32,33}; longer messages; KDF for every klen 1..=300 and {1024,4096,65537} x 2 Z values; library-with-real-RNG ciphertexts decrypted by the reference; OpenSSL DER ciphertext corpus. Per case: ciphertext = reference ciphertext byte for byte for the accepted nonce, reference decryptor recovers M, library round trip, library decrypts a reference-made ciphertext.");
+    ctx.set_rule("every message length 1..=300 (thorough 1..=1200) x {C1C2C3,C1C3C2} x {compressed,uncompressed} x content {zero, seeded} with fixed (d,k); keys {Annex d, n-2, seeded} x nonce alphabet at lengths {1,32,33}; longer messages; KDF for every klen 1..=300 and {1024,4096,65537, 2^24+1, 2^25+2} x 2 Z values; library-with-real-RNG ciphertexts decrypted by the reference; OpenSSL DER ciphertext corpus. Per case: ciphertext = reference ciphertext byte for byte for the accepted nonce, reference decryptor recovers M, library round trip, library decrypts a reference-made ciphertext.");
     let ks = scalar_alphabet(&n, ctx.seed, "c05k", 1);
     let ds: Vec<(String, BigUint)> = vec![("annex".into(), hb(ANNEX_D)), ("n-2".into(), &n - 2u32), ("seed".into(), SplitMix::new(ctx.seed, "c05d").nonzero_below(&(&n - 1u32)))];
     let lmax = 300usize;
@@ -278,7 +278,7 @@ pub fn run(ctx: &Arc<Ctx>) {
             }
         }
     }
-    for klen in (1..=lmax).chain([1024usize, 4096, 65537]) {
+    for klen in (1..=lmax).chain([1024usize, 4096, 65537, (1 << 24) + 1, (1 << 25) + 2]) {
         for z in ["zero", "seed"] {
             cases.push(Case::Kdf { klen, z_class: z.into() });
         }
